@@ -138,6 +138,8 @@ Fixpoint e_check (st : pstate) (l : list (eop * eobs)) : bool :=
 Inductive case :=
 | KTree (adds : list (rec * rec)) (qs : list Z) (trav : list (rec * rec)) (ge lt : list answer)
 | KTreeML (adds : list (rec * rec)) (qs : list Z) (trav : list (rec * rec)) (ge lt : list answer)
+| KTreeSteps (steps : list (list (rec * rec) * list Z * (Z * list (rec * rec)) * (list answer * list answer)))
+    (* checkpoints of one tree: more adds, then the number of intervals, the last (up to) 45 intervals, grEq/less answers *)
 | KIw (tss : list Z) (mn mx : Z)
 | KCi (ops : list ciop) (obs : list ciobs)
 | KE2E (hist : list (eop * eobs))
@@ -152,6 +154,26 @@ Definition ml_check (adds : list (rec * rec)) (qs : list Z) (trav : list (rec * 
       && list_eqb answer_eqb (map (tree_less t) qs) lt
   end.
 
+Definition last_n {A} (n : nat) (l : list A) : list A := skipn (length l - n) l.
+Fixpoint steps_check (ot : option tree) (steps : list (list (rec * rec) * list Z * (Z * list (rec * rec)) * (list answer * list answer))) : bool :=
+  match steps with
+  | [] => true
+  | (adds, qs, (cnt, tail), (ge, lt)) :: rest =>
+      let ot' := match ot, adds with
+                 | None, (p0, p1) :: tl => Some (fold_left (fun t a => top_add t (fst a) (snd a)) tl (top_new p0 p1))
+                 | None, [] => None
+                 | Some t, _ => Some (fold_left (fun t a => top_add t (fst a) (snd a)) adds t)
+                 end in
+      match ot' with
+      | None => false
+      | Some t =>
+          let tr := tree_traversal t in
+          (Z.of_nat (length tr) =? cnt) && list_eqb pair_rec_eqb (last_n 45 tr) tail
+          && list_eqb answer_eqb (map (tree_gr_eq t) qs) ge && list_eqb answer_eqb (map (tree_less t) qs) lt
+          && steps_check ot' rest
+      end
+  end.
+
 Definition check (c : case) : bool :=
   match c with
   | KTree adds qs trav ge lt =>
@@ -162,6 +184,7 @@ Definition check (c : case) : bool :=
       && list_eqb answer_eqb (map (flat_less rs) qs) lt
       && ml_check adds qs trav ge lt
   | KTreeML adds qs trav ge lt => ml_check adds qs trav ge lt
+  | KTreeSteps steps => steps_check None steps
   | KIw tss mn mx =>
       let s := fold_left (iw_get (fix_zero impl_variant)) tss iw_init in
       (iw_min s =? mn) && (iw_max s =? mx)
